@@ -54,6 +54,13 @@ def gen_tables(scratch_dir):
     with locked("gen"):
         p = subprocess.run([PY, os.path.join(ROOT, "harness", "gen_tables.py"), REPO, os.path.join(LEAN, "Rp2", "Gen")],
                            capture_output=True, text=True, env=child_env(scratch_dir), cwd=scratch_dir)
+        if p.returncode == 0:
+            # translator for the arithmetic getters, predicates and constructors (Python AST -> Lean definitions): Gen/Formulas.lean
+            q = subprocess.run([PY, os.path.join(ROOT, "harness", "gen_formulas.py"), REPO, os.path.join(LEAN, "Rp2", "Gen")],
+                               capture_output=True, text=True, env=child_env(scratch_dir), cwd=scratch_dir)
+            if q.returncode != 0:
+                return False, (q.stdout + q.stderr)[-3000:]
+            p.stdout += q.stdout
     return p.returncode == 0, (p.stdout + p.stderr)[-3000:]
 
 
